@@ -138,6 +138,22 @@ Definition fr_map_from_int_pre (r : frange) (x : Z) : Q :=
 Definition fr_map_from_int (r : frange) (x : Z) : val :=
   let y := fr_map_from_int_pre r x in
   if f_cast_int r then VI (round_he y) else VF y.
+(* the list of values [_map_from_int(x) for x in range(size)] (FiniteRange._values; with cast_int
+   also kept by HyperparameterRangeFiniteRange) *)
+Definition fd_values (r : frange) : list val :=
+  map (fun i => fr_map_from_int r (Z.of_nat i)) (seq 0 (Z.to_nat (f_size r))).
+(* list.index(value) with numeric ==: first position whose value equals y *)
+Fixpoint index_num (y : Q) (l : list val) : option nat :=
+  match l with
+  | [] => None
+  | v :: r => if Qeqb (val_num v) y then Some O else option_map S (index_num y r)
+  end.
+(* `elif self.cast_int and value in self._values: return self._values.index(value)`
+   [added by the fix of F-C07-15: before it, a cast_int value always went through the rounding in
+    the internal domain, which for log scaling can pick a neighbouring grid point:
+    logfinrange(5.5, 11, 5, cast_int=True) = [6,7,8,9,11], 6 -> index 1 -> 7] *)
+Definition castint_lookup (r : frange) (y : Q) : option nat :=
+  if f_cast_int r then index_num y (fd_values r) else None.
 (* value before rounding, exposed for the correspondence *)
 Definition fr_map_to_int_pre (r : frange) (y : Q) : Q :=
   (Qclip (to_int (f_sc r) (Qclip y (f_lo r) (f_hi r))) (f_lo_i r) (f_hi_i r) - f_lo_i r) / f_step r.
@@ -146,7 +162,11 @@ Definition fr_map_to_int_pre (r : frange) (y : Q) : Q :=
     logfinrange with cast_int could not be encoded] *)
 Definition fr_map_to_int (r : frange) (y : Q) : option Z :=
   if Qeqb (f_step r) 0 then Some 0%Z
-  else if sc_dom (f_sc r) (Qclip y (f_lo r) (f_hi r)) then Some (round_he (fr_map_to_int_pre r y)) else None.
+  else match castint_lookup r y with
+       | Some i => Some (Z.of_nat i)
+       | None =>
+           if sc_dom (f_sc r) (Qclip y (f_lo r) (f_hi r)) then Some (round_he (fr_map_to_int_pre r y)) else None
+       end.
 Definition fr_to_nd (eps : Q) (r : frange) (hp : val) : option Q :=
   match fr_map_to_int r (val_num hp) with
   | Some i => int_to_nd eps (f_rint r) i
@@ -480,14 +500,15 @@ Inductive domain :=
 Definition fd_frange (sc_log : scaling) (lo hi : Q) (size : Z) (log_scale cast_int : bool) : frange :=
   {| f_lo := lo; f_hi := hi; f_size := size; f_sc := if log_scale then sc_log else linear;
      f_cast_int := cast_int |}.
-Definition fd_values (r : frange) : list val :=
-  map (fun i => fr_map_from_int r (Z.of_nat i)) (seq 0 (Z.to_nat (f_size r))).
 (* FiniteRange._map_to_int: clip the VALUE, then transform, round, clip the index *)
 Definition fd_map_to_int_pre (r : frange) (y : Q) : Q :=
   (to_int (f_sc r) (Qclip y (f_lo r) (f_hi r)) - f_lo_i r) / f_step r.
 Definition fd_map_to_int (r : frange) (y : Q) : Z :=
   if Qeqb (f_step r) 0 then 0%Z
-  else Zclip (round_he (fd_map_to_int_pre r y)) 0 (f_size r - 1).
+  else match castint_lookup r y with
+       | Some i => Z.of_nat i
+       | None => Zclip (round_he (fd_map_to_int_pre r y)) 0 (f_size r - 1)
+       end.
 Definition fd_cast (r : frange) (y : Q) : option val :=
   nth_error (fd_values r) (Z.to_nat (fd_map_to_int r y)).
 
